@@ -140,6 +140,9 @@ LS2Vecs ==
   \o SeqMap(LAMBDA n : One(B("NewLeaseSet2", LS2Model(7, 4, 0, FALSE, << >>, NK(n), NL(1)), "ls2-nk")), << 0, 1, 2, 3, 16, 17 >>)
   \o SeqMap(LAMBDA n : One(B("NewLeaseSet2", LS2Model(7, 4, 0, FALSE, << >>, NK(1), NL(n)), "ls2-nl")), << 0, 1, 2, 16, 17 >>)
   \o SeqMap(LAMBDA k : One(B("NewLeaseSet2", LS2Model(7, 4, 0, FALSE, << >>, << k >>, NL(1)), "ls2-key")), KeyModels \o BadKeyModels)
+  \* key data whose length agrees with the two-byte length field only modulo 65536
+  \o SeqMap(LAMBDA k : One(B("NewLeaseSet2", LS2Model(7, 4, 0, FALSE, << >>, << k >>, NL(1)), "ls2-key-wrapped-length")),
+            << [type |-> 4, len |-> 32, data |-> Fill(65536 + 32, 1)], [type |-> 65280, len |-> 7, data |-> Fill(65536 + 7, 4)], [type |-> 0, len |-> 256, data |-> Fill(65536 + 256, 2)] >>)
   \* a wrong-length key behind / before / between other keys, including keys of unknown type (nothing to check for those)
   \o Concat(SeqMap(LAMBDA b : << One(B("NewLeaseSet2", LS2Model(7, 4, 0, FALSE, << >>, << KeyModels[4], b >>, NL(1)), "ls2-keys-unknown-then-bad")),
                                   One(B("NewLeaseSet2", LS2Model(7, 4, 0, FALSE, << >>, << KeyModels[1], b >>, NL(1)), "ls2-keys-good-then-bad")),
